@@ -200,6 +200,70 @@ def pktHasDupKeys (c : Config) : Packet → Bool
 def commonOk (c : Config) (names : List (Nat × String)) (pkts : List Packet) (cs : List (Option Common)) : Bool :=
   pkts.length == cs.length && (pkts.zip cs).all fun p => pktHasDupKeys c p.1 || specCommon c names p.1 == p.2
 
+/-! #### records that define a projected key more than once
+    The property says "equal the corresponding decoded fields of that record": with two fields of one type either is a
+    corresponding field, so the choice is open — but NOT the rest: every attribute must still be the conversion of SOME
+    decoded field of the record with that key, absent only when there is none (or the chosen one does not convert). -/
+
+/-- the decoded values a record carries for a projected key, in record order -/
+def fieldsOf (r : Rec) (disc : Nat) : List FieldValue := (r.filter fun e => e.2.1 == disc).map (·.2.2)
+
+def anyOf {α : Type} [BEq α] (cands : List FieldValue) (conv : FieldValue → Option α) (x : Option α) : Bool :=
+  if cands.isEmpty then x == none else cands.any fun v => conv v == x
+
+/-- every attribute of `f` is the conversion of some decoded field of `r` with that key (IPv4 key before IPv6 key) -/
+def flowAnyOk (ipC : FieldValue → Option IpAddrM) (portC protoC timeC : FieldValue → Option Nat)
+    (macC : FieldValue → Option Bytes) (ptype : Nat → Nat) (k : CommonKeys) (r : Rec) (f : CommonFlow) : Bool :=
+  let ipCands (a b : Nat) := if (fieldsOf r a).isEmpty then fieldsOf r b else fieldsOf r a
+  anyOf (ipCands k.src4 k.src6) ipC f.srcAddr && anyOf (ipCands k.dst4 k.dst6) ipC f.dstAddr &&
+  anyOf (fieldsOf r k.sport) portC f.srcPort && anyOf (fieldsOf r k.dport) portC f.dstPort &&
+  anyOf (fieldsOf r k.proto) protoC f.protoNum && f.protoType == f.protoNum.map ptype &&
+  anyOf (fieldsOf r k.first) timeC f.first && anyOf (fieldsOf r k.last) timeC f.last &&
+  anyOf (fieldsOf r k.smac) macC f.srcMac && anyOf (fieldsOf r k.dmac) macC f.dstMac
+
+/-- the specified view of a V9 packet up to the choice among duplicate fields (IPFIX: the per-field flows are a recorded
+    finding; duplicates inside a regrouped record are not judged) -/
+def specDupOk (c : Config) (names : List (Nat × String)) : Packet → Option Common → Bool
+  | .v9 h ss, some cm =>
+    cm.version == 9 && cm.timestamp == c.t.v9Hdr.get "sys_up_time" h &&
+    cm.flows.length == (v9DataRecs ss).length &&
+    ((v9DataRecs ss).zip cm.flows).all fun p =>
+      flowAnyOk asIp numOf (protoNumOf c.t) timeOf asString (Spec.protoSpecDisc names) c.t.commonV9 p.1 p.2
+  | .v9 .., none => false
+  | _, _ => true
+
+/-- the oracle of C13: `commonOk` and, on the packets it leaves open, the any-candidate form -/
+def commonOkDup (c : Config) (names : List (Nat × String)) (pkts : List Packet) (cs : List (Option Common)) : Bool :=
+  commonOk c names pkts cs && (pkts.zip cs).all fun p => !pktHasDupKeys c p.1 || specDupOk c names p.1 p.2
+
+/-- what the model's `toCommon` does up to the choice among duplicate fields (correspondence on duplicate-key V9 packets) -/
+def modelDupOk (c : Config) : Packet → Option Common → Bool
+  | .v9 h ss, some cm =>
+    cm.version == c.t.v9Hdr.get "version" h && cm.timestamp == c.t.v9Hdr.get c.t.commonV9.ts h &&
+    cm.flows.length == (v9DataRecs ss).length &&
+    ((v9DataRecs ss).zip cm.flows).all fun p =>
+      flowAnyOk asIp asU16 asU8 asU32 asString c.t.protoFromU8 c.t.commonV9 p.1 p.2
+  | _, _ => false
+
+/-- correspondence of the common views: equal, except that on a V9 packet with a duplicate projected key the implementation
+    may have chosen another of the duplicates -/
+def commonCorr (c : Config) (pkts : List Packet) (impl model : List (Option Common)) : Bool :=
+  impl == model ||
+  (impl.length == model.length && pkts.length == model.length &&
+   (pkts.zip (impl.zip model)).all fun p => p.2.1 == p.2.2 || (pktHasDupKeys c p.1 && modelDupOk c p.1 p.2.1))
+
+/-- the same for the flattening helper: the flat list, cut at the model's per-packet flow counts -/
+def flatCorr (c : Config) : List Packet → List CommonFlow → Bool
+  | [], fl => fl.isEmpty
+  | p :: ps, fl =>
+    match toCommon c p with
+    | none => flatCorr c ps fl
+    | some cm =>
+      let n := cm.flows.length
+      let a := fl.take n
+      a.length == n && (a == cm.flows || (pktHasDupKeys c p && modelDupOk c p (some { cm with flows := a }))) &&
+      flatCorr c ps (fl.drop n)
+
 end Netflow.Preds
 
 namespace Netflow.Preds
